@@ -166,7 +166,8 @@ func verifyExp(exp int64, now int64, required bool) bool {
 	if exp == 0 {
 		return !required
 	}
-	return now <= exp
+	// RFC 7519, section 4.1.4: the current time MUST be before the expiration time.
+	return now < exp
 }
 
 func verifyIat(iat int64, now int64, required bool) bool {
